@@ -18,18 +18,11 @@ From Coq Require Import List String.
 Import ListNotations.
 Open Scope string_scope.
 
-Definition expected_offenders : list (string * string) := [
-  ("Bip44Base.PrivateKey", "Bip32Base.m_priv_key");
-  ("Bip44PublicKey.ToAddress", "BipBitcoinCashConf.m_use_legacy_addr");
-  ("Bip44PublicKey.ToAddress", "BipLitecoinConf.m_use_depr_addr");
-  ("CardanoByronLegacy.GetAddress", "Bip32Base.m_priv_key");
-  ("CardanoByronLegacy.__DeriveKey", "Bip32Base.m_priv_key");
-  ("CardanoShelley.PrivateKeys", "Bip32Base.m_priv_key");
-  ("ElectrumV2Segwit.GetAddress", "Bip32Base.m_priv_key");
-  ("ElectrumV2Segwit.__DeriveKey", "Bip32Base.m_priv_key");
-  ("ElectrumV2Standard.GetAddress", "Bip32Base.m_priv_key");
-  ("ElectrumV2Standard.__DeriveKey", "Bip32Base.m_priv_key")
-].
+Definition expected_offenders : list (string * string) := [].
+(* F6 and F14 were repaired in /repo (three fix: commits dropping the caches); the former entries were
+   Bip44Base.PrivateKey, CardanoShelley.PrivateKeys, ElectrumV2{Standard,Segwit}.{GetAddress,__DeriveKey},
+   CardanoByronLegacy.{GetAddress,__DeriveKey} over Bip32Base.m_priv_key, and Bip44PublicKey.ToAddress over the
+   BCH/LTC toggles. *)
 
 (* Operations that derive / build objects from an existing one: none may write a field of an
    existing object (lazy initialisers apart).  Each must exist in the generated method table. *)
